@@ -20,8 +20,11 @@ TOL = z3.RealVal("1e-15")
 
 
 class V:
-    def __init__(self, tag, val=None):
+    def __init__(self, tag, val=None, ival=None):
         self.tag, self.val = tag, val
+        # ival: an Int-sorted term equal to the value when it is known to be an integer (python int, sympy Integer from floor /
+        # sympify(int) / integer arithmetic); lets isinstance(x, Integer) and int(x) be decided without IsInt over nonlinear terms
+        self.ival = val if (tag == PYINT and ival is None) else ival
 
     def real(self):
         return z3.ToReal(self.val) if self.tag == PYINT else self.val
@@ -190,7 +193,7 @@ class Ev:
         conds = []
         for nm in names:
             if nm in ("sympy.core.numbers.Integer", "sympy.Integer"):
-                conds.append(z3.IsInt(a.val) if a.tag == RAT else z3.BoolVal(False))
+                conds.append((z3.BoolVal(True) if a.ival is not None else z3.IsInt(a.val)) if a.tag == RAT else z3.BoolVal(False))
             elif nm in ("sympy.Rational", "sympy.core.numbers.Rational", "sympy.Basic", "sympy.Expr", "sympy.Number"):
                 conds.append(z3.BoolVal(a.tag == RAT))
             elif nm == "int":
@@ -224,18 +227,21 @@ class Ev:
                 return a
             return V(RAT, self.nearby(a))
         if f == "sympy.sympify":
-            return a if a.tag != PYINT else V(RAT, z3.ToReal(a.val))
+            return a if a.tag != PYINT else V(RAT, z3.ToReal(a.val), a.val)
         if f == "sympy.Rational":
             if len(args) == 2:
                 return V(RAT, args[0].real() / args[1].real())
-            return a if a.tag != PYINT else V(RAT, z3.ToReal(a.val))
+            return a if a.tag != PYINT else V(RAT, z3.ToReal(a.val), a.val)
         if f == "sympy.floor":
             if a.tag == FLOAT:
                 raise Unsupported("floor of an inexact float")
-            return V(RAT, z3.ToReal(floor_real(a.real())))
+            fl = floor_real(a.real())
+            return V(RAT, z3.ToReal(fl), fl)
         if f == "int":
             if a.tag == PYINT:
                 return a
+            if a.ival is not None:
+                return V(PYINT, a.ival)
             x = a.real()
             return V(PYINT, z3.If(z3.IsInt(x), z3.ToInt(x), z3.If(x >= 0, floor_real(x), -floor_real(-x))))
         if f == "abs":
@@ -260,6 +266,9 @@ def binop(op, a, b):
         raise Unsupported("int op " + op)
     tag = FLOAT if FLOAT in (a.tag, b.tag) else RAT
     x, y = a.real(), b.real()
+    if tag == RAT and a.ival is not None and b.ival is not None and op in ("Add", "Sub", "Mult"):
+        iv = {"Add": a.ival + b.ival, "Sub": a.ival - b.ival, "Mult": a.ival * b.ival}[op]
+        return V(RAT, z3.ToReal(iv), iv)
     if op == "Add":
         return V(tag, x + y)
     if op == "Sub":
